@@ -1,5 +1,5 @@
 """C10 - raw source edits are equivalent to re-parsing the whole file, or change nothing."""
-from contracts import k_index, k_offset
+from contracts import k_index, k_offset, k_order
 from pyvc.contract import verify_all
 from pyvc import native
 
@@ -8,6 +8,7 @@ def run(rep, tier, seed):
     # P: clipping of the rectangle and the text splice the raw path is built on
     specs = [s for s in k_index.specs('C10') if s.name == 'clip_src_loc'] + k_offset.specs_text('C10')
     verify_all(rep, specs)
+    k_order.c10_order(rep, 'C10')
     sec = native.run('b_raw', 'main', {'props': ['C10'], 'tier': tier, 'seed': seed, 'ops': ['reparse', 'rawput'],
                                        'max_fail': 100000}, timeout=7200)
     sec['native_entry'] = ('b_raw', 'replay')
